@@ -139,3 +139,41 @@ func (sp SendSpec) Describe() string {
 	}
 	return fmt.Sprintf("%s->%s user=%s token=%s amount=%v call=%s fee=%v", sp.Src.Name, sp.Dst.Name, sp.User.Name, tok, sp.Amount, sp.Call.Kind, sp.FeeAmount)
 }
+
+// ScrambleRelayers re-registers, on chain n, every relayer with a junk counterparty address for the counterparty
+// chain `chain` (the relayers stay authorised for it; only the address they are known by on that chain changes).
+// While this lasts, an acknowledgement coming back from `chain` names a relayer nobody on n is registered as, and a
+// receive on n from `chain` records the junk address as fee recipient. RestoreRelayers undoes it.
+func (s *Sim) ScrambleRelayers(n *core.Node, chain string) {
+	for i, r := range s.W.Relayers {
+		var chains, addrs []string
+		for _, o := range s.W.Nodes {
+			if o == n {
+				continue
+			}
+			chains = append(chains, o.Name)
+			if o.Name == chain {
+				addrs = append(addrs, core.NewAccount(fmt.Sprintf("junk-%s-%d", chain, i)).Bech32())
+			} else {
+				addrs = append(addrs, r.Bech32())
+			}
+		}
+		n.App.XIBCKeeper.ClientKeeper.RegisterRelayers(n.Ctx(), r.Bech32(), chains, addrs)
+	}
+	s.logf("registry on %s: counterparty addresses for %s scrambled", n.Name, chain)
+}
+
+// RestoreRelayers registers every relayer on n the way NewWorld did.
+func (s *Sim) RestoreRelayers(n *core.Node) {
+	for _, r := range s.W.Relayers {
+		var chains, addrs []string
+		for _, o := range s.W.Nodes {
+			if o != n {
+				chains = append(chains, o.Name)
+				addrs = append(addrs, r.Bech32())
+			}
+		}
+		n.App.XIBCKeeper.ClientKeeper.RegisterRelayers(n.Ctx(), r.Bech32(), chains, addrs)
+	}
+	s.logf("registry on %s restored", n.Name)
+}
